@@ -30,7 +30,8 @@ LEVEL_NOTE = ('trusted (modelled, not verified): ldpc decode() is a function of 
               'inputs is structural in the model; for the real numpy arrays (caller\'s syndrome, lru_cached '
               'probability_distribution arrays) it is tested by snapshots, not proved (XCubeMatchingDecoder: the '
               'caller\'s array is compared before/after every call of the correspondence histories; the model works '
-              'on the masked / restored copies by value). Union-find and MBP internals: tested only.')
+              'on the masked / restored copies by value). Union-find internals: tested only; MBP works on copies of '
+              'its message arrays (its glue model Model/MbpDecoder.lean is a function; reused-vs-fresh is tested).')
 TECHNIQUE = ('Lean 4 proof (state-machine invariant by induction over the call history) + multi-call boundary-spy '
              'correspondence + reused-vs-fresh oracle with input snapshots')
 TRUSTED = ['ldpc BpOsdDecoder.decode return value depends only on (matrix, schedule, channel probabilities, syndrome)',
